@@ -174,7 +174,8 @@ func sizesFor(w int) []int {
 }
 
 func generate(seed uint64, tier string) ([]string, stats) {
-	r := hx.NewRand(seed)
+	// hx.NewRand(seed+1) is hx.NewRand(seed) shifted by one draw, so reseed with an output
+	r := hx.NewRand(hx.NewRand(seed).U64())
 	st := stats{Seed: seed, Tier: tier}
 	var lines []string
 
